@@ -7,14 +7,14 @@ VERIF = os.path.dirname(os.path.dirname(os.path.abspath(__file__)))
 
 T = 'Lean 4 theorems over an executable model; model tied to /repo by regenerated translation (T1) and/or differential correspondence (T2); failing-input search by a property oracle'
 P = {
- 'C01': ('proof', 'For every shipped class and every nesting of preference-function combinators, for all horizons n, all parameters, flows and prices: the modelled marginal cost is the Gateaux gradient of the modelled cost (IsGradAt: derivative along every direction), hence every partial derivative and, for kink-free classes, the line-integral form. Proved in Lean over the same definitions the driver executes; scalar kernels are re-translated from the Python source on every run and bridged; all classes are tied by correspondence on random configurations.',
+ 'C01': ('proof', 'For every shipped class and every nesting of preference-function combinators, for all horizons n, all parameters, flows and prices: the modelled marginal cost is the Gateaux gradient of the modelled cost (IsGradAt: derivative along every direction), hence every partial derivative and, for kink-free classes, the line-integral form. Proved in Lean over the same definitions the driver executes; scalar kernels and the vector cost/deriv bodies of every closed-form class are re-translated from the Python source on every run and bridged to the model (a changed body breaks a bridge lemma); all classes are tied by correspondence on random configurations, including integer-typed and row-shaped flows and built-then-reassigned parameters.',
          'Kink hypotheses are explicit (integer ABC exponent >= 1 or q > 0; lossy storage away from zero flow; unique arg-max for DemandFunction). nd-based function classes (InformationEntropy, TemporalVariance, CobbDouglas) and WindowDevice are outside the model. IEEE rounding / numpy glue covered by correspondence only.'),
  'C02': ('proof', 'For all trees (any depth, fan-out, children with different row counts) over arbitrary block behaviours, by mutual induction: tree cost = sum of block costs on their own rows, marginal-cost rows and bounds rows belong to the owning block, the constraint list holds iff every block constraint holds on its own rows and every node constraint on its own range; zero-padded Jacobians stay gradients; flat/matrix index arithmetic round-trips.',
-         'Blocks are abstract in the theorems; shipped leaves/adaptors are tied by correspondence. numpy slicing/reshape itself is observed, not proved.'),
+         'Blocks are abstract in the theorems; the set-level glue of DeviceSet / MFDeviceSet (partition, costv/deriv/hess comprehensions, price explosion, bounds, project, constraints re-wrapping) is re-translated from the current source on every run and bridged to the tree model for every list of children (T1s); shipped leaves/adaptors are also tied by correspondence, on several memory layouts and price forms. numpy slicing/reshape itself is denoted by the translator, not proved.'),
  'C03': ('proof', 'For every list of cumulative bounds and every storage parameterisation, all horizons: the exported constraint list is satisfied exactly by the flows meeting the documented semantics (own limits on own slot range; state of charge from the reported recurrence within [0, capacity], reserve at the end, rate clipping).',
          'User constraints of ADevice are opaque predicates in the theorem; Python closures are tied by correspondence and the oracle.'),
  'C04': ('proof', 'Own constraints of every set hold iff per-slot column sums lie in the aggregate bounds (equality when low = high); label balancing, ratio and multi-flow adaptor variants; combined with C02 for every depth simultaneously.',
-         'Regular-expression metacharacters in labels are outside the model (suffix match).'),
+         'The constraint lists of DeviceSet, MFDeviceSet, TwoRatioMFDeviceSet and SubBalancedDeviceSet are re-translated from the current source on every run and bridged (T1s); label matching (re) is outside the translated subset: labels are matched as escaped qualified-id suffixes in the model and tied by correspondence.'),
  'C05': ('proof', 'PARTIAL. Proved: for every optimiser result with success = false solve raises (universal fault injection), an ok outcome is the shortcut or the reshaped successful result, the assembled proximal objective/Jacobian are cost + quadratic and its gradient, first-order certificates are sound on convex feasible sets, closed-form optima minimise the model. SLSQP convergence and the honesty of its success flag are runtime behaviour observed by the oracle only.',
          'SciPy minimize is a parameter of the model.'),
  'C06': ('proof', 'Every Jacobian the model supplies (cumulative bounds, state of charge, reserve, aggregate bounds, ratio, adaptor tiling, tree re-wrapping) is the gradient of its function and vanishes on variables the function does not read, for all sizes.',
@@ -22,7 +22,7 @@ P = {
  'C07': ('proof', 'Chord-form convexity over the bounds box for every convex-documented class under explicit acceptance hypotheses, all horizons; gradient monotonicity (the first-order face of convexity) is proved from the chord form for the model gradients; three accepted non-convex corners (IDevice exponent in (0,1); SDevice c1 = 0 < c2; the lossy-storage feasible set) are proved non-convex by witnesses and carried as known findings.',
          'GDevice/ADevice polynomials restricted to convex ones as the property says.'),
  'C08': ('proof', 'cost(s,p) = cost(s,0) + sum s*p and deriv(s,p) = deriv(s,0) + p for every class and, by induction, every tree; model Hessians have no price argument.',
-         'numpy price broadcasting is observed by correspondence.'),
+         'The four price shapes (matrix, per-slot vector, scalar, (1,n) row) of the set-level code are re-translated from the source and bridged to the broadcast price matrices (T1s); numpy broadcasting itself is denoted by the translator and observed by correspondence.'),
  'C09': ('proof', 'soc, charge_at and the state bounded by the storage constraints satisfy the documented first-order recurrence from start*capacity; thermal temperature satisfies T_i = s T_{i-1} + (1-s) TE_i + e r_i for any real external temperatures and flows; all horizons.',
          ''),
  'C10': ('proof', 'PARTIAL. Proved: the definedness side-conditions generated from the current kernel source (every division and general power) hold under the acceptance conditions for in-bounds flows. Shape contracts and absence of exceptions are numpy glue: observed for the listed horizon lengths and boundary grid, not proved.',
@@ -58,7 +58,7 @@ def main():
                      'evidence_file': 'evidence/%s.json' % pid, 'replay_cmd_template': './check %s --replay {path}' % pid,
                      'engine': 'lean-model+correspondence',
                      'level_claimed': {'category': cat, 'text': text, 'design_ref': 'DESIGN.md §4 %s' % pid},
-                     'level_note': ('Trusted base: Lean kernel + axioms propext/Classical.choice/Quot.sound (audited per theorem on every run); Mathlib definitions in statements; vk translator/correspondence harness; ' + note).strip(),
+                     'level_note': ('Trusted base: Lean kernel + axioms propext/Classical.choice/Quot.sound (audited per theorem on every run); Mathlib definitions in statements; vk translators (scalar kernels, validators, class table, vector method bodies T1v, set-level glue T1s: their numpy/Python denotation is trusted and cross-checked by correspondence) and the correspondence harness; ' + note).strip(),
                      'technique': 'machine-checked proof (Lean 4) over a model tied by translation + correspondence'})
     else:
       na.append({'property_id': pid, 'reason': 'check not built yet (work in progress; the technique applies, see DESIGN.md §4 %s)' % pid})
